@@ -6,8 +6,8 @@ For every program over the `Reader` trait's methods (`Model/DecProg.lean`) and e
 `StreamingReader` whenever the run stays within the 100 000-byte cap of `read_fixed_bytes`
 (`stream_eq_bin_of_capped`) - which is ALWAYS the case for a decoder whose `read_fixed_bytes` lengths
 are constants and that reads no length prefix (`capped_of_constLens`, `three_readers_agree_constLens`).
-Instances: `CommitPos`, `SizeEntry`, `BlockSums`, the NRD list wrapper, each also proved to BE the
-plain model's decoder (`run_*_eq`). A start: the payload decoders of `Model/DecSer.lean` are not yet
+Instances: `CommitPos`, `SizeEntry`, `BlockSums`, the NRD list wrapper, and the network payloads `Ping` /
+`Pong`, `TxHashSetRequest`, `TxHashSetArchive`, each also proved to BE the plain model's decoder (`run_*_eq`). A start: the payload decoders of `Model/DecSer.lean` are not yet
 re-expressed as programs. Beyond the cap the readers really differ (`bytesP_differs`). -/
 namespace GV.Props.C11Prog
 open GV GV.Ser GV.SerDb GV.DecProg
@@ -192,6 +192,52 @@ theorem nrdList_three_readers (rd : Rdr3) (bs : Bytes) : run rd nrdListP bs = ru
     split
     · simp [constLens]
     · split <;> simp [constLens]) rd bs
+
+/-! ### network payloads -/
+
+theorem run_pingPongP_eq (bs : Bytes) : run .bin pingPongP bs = GV.SerMsg.decPingPong bs := by
+  simp only [pingPongP, run, GV.SerMsg.decPingPong, andThen]
+  cases readU64 bs with
+  | error e => rfl
+  | ok v => simp only; cases readU64 v.2 with
+    | error e => rfl
+    | ok w => rfl
+
+/-- `Ping` / `Pong`: the same value, rest and error through all three readers, on every input -/
+theorem pingPong_three_readers (rd : Rdr3) (bs : Bytes) : run rd pingPongP bs = GV.SerMsg.decPingPong bs := by
+  rw [three_readers_agree_constLens pingPongP (by simp [pingPongP, constLens]) rd bs, run_pingPongP_eq]
+
+theorem run_txHashSetRequestP_eq (bs : Bytes) :
+    run .bin txHashSetRequestP bs = GV.SerMsg.decTxHashSetRequest bs := by
+  simp only [txHashSetRequestP, run, readFixedR, GV.SerMsg.decTxHashSetRequest, decHash, andThen]
+  cases readFixed HASH_SIZE bs with
+  | error e => rfl
+  | ok v => simp only; cases readU64 v.2 with
+    | error e => rfl
+    | ok w => rfl
+
+theorem txHashSetRequest_three_readers (rd : Rdr3) (bs : Bytes) :
+    run rd txHashSetRequestP bs = GV.SerMsg.decTxHashSetRequest bs := by
+  rw [three_readers_agree_constLens txHashSetRequestP
+    (by simp only [txHashSetRequestP, constLens]; exact ⟨by decide, fun _ _ => trivial⟩) rd bs,
+    run_txHashSetRequestP_eq]
+
+theorem run_txHashSetArchiveP_eq (bs : Bytes) :
+    run .bin txHashSetArchiveP bs = GV.SerMsg.decTxHashSetArchive bs := by
+  simp only [txHashSetArchiveP, run, readFixedR, GV.SerMsg.decTxHashSetArchive, decHash, andThen]
+  cases readFixed HASH_SIZE bs with
+  | error e => rfl
+  | ok v => simp only; cases readU64 v.2 with
+    | error e => rfl
+    | ok w => simp only; cases readU64 w.2 with
+      | error e => rfl
+      | ok x => rfl
+
+theorem txHashSetArchive_three_readers (rd : Rdr3) (bs : Bytes) :
+    run rd txHashSetArchiveP bs = GV.SerMsg.decTxHashSetArchive bs := by
+  rw [three_readers_agree_constLens txHashSetArchiveP
+    (by simp only [txHashSetArchiveP, constLens]; exact ⟨by decide, fun _ _ _ => trivial⟩) rd bs,
+    run_txHashSetArchiveP_eq]
 
 /-- the zero-padding check is a program over `u8`: the same for every reader -/
 theorem emptyBytes_three_readers {α : Type} (n : Nat) (k : Prog α) (hk : constLens k) (rd : Rdr3) (bs : Bytes) :
